@@ -26,7 +26,7 @@ import random
 STRS = ["", "a", "x y", "123", "-7", "0", "true", "1", "null", "héllo ✓", "file:///tmp/a", "text", "2.0", "A" * 40]
 INTS = [0, 1, -1, 42, 100, 2**31, 2**53 + 1, -(2**63), 10**20]
 FLOATS = [0.5, 0.25, 1.5, -2.75, 1e-3, 3.0, 0, 7]
-EXTRA_NAMES = ["x", "extra", "note", "_custom", "X-Y", "data2", "annotations2", "kind"]
+EXTRA_NAMES = ["x", "extra", "note", "_custom", "X-Y", "data2", "annotations2", "kind", "self"]
 ANY_KEYS = ["a", "b", "type", "text", "meta", "_meta", "schema", "schema_", "progressToken", "n"]
 
 
